@@ -118,10 +118,11 @@ trimmed or limited — `isStreamRecovered` then refuses). This is C17's stream i
 def BrokerContig (h : Hist) : Prop :=
   ∃ a, h.pubs.map (·.offset) = List.range' a h.pubs.length
 
-/-- Fault-freeness of the PUB/SUB deliveries that land inside the subscribe window:
-nothing at or below the requested offset, and no hole above the history top. -/
+/-- Fault-freeness of the PUB/SUB deliveries that land inside the subscribe window: no hole
+above the history top.  (Stale deliveries — offsets at or below the requested one — are allowed:
+since fix c43e0c0e "recovery does not deliver again a publication the client already has" they are
+dropped from the reply, see `dropStale`.) -/
 structure WindowOK (req : Req) (h : Hist) (buffered : List MPub) : Prop where
-  noStale : ∀ b ∈ buffered, req.offset < b.offset
   gapFree : ∀ b ∈ buffered, ∀ o, h.top < o → o < b.offset → o ∈ buffered.map (·.offset)
 
 /-- Without recovery (or when recovery is refused) the reply carries no publications and the
@@ -141,7 +142,8 @@ theorem reply_not_recovered_empty (req : Req) (h : Hist) (buffered pubs : List M
 
 /-- FULL STATEMENT (not provable for the current code, see the counter-witnesses below): for
 every buffered list, a recovered reply covers `(req.offset, pos]` exactly once, in order.
-PROVED PART: the same under `WindowOK` (no stale and no missing in-window delivery). -/
+PROVED PART: the same under `WindowOK` (no missing in-window delivery above the history top);
+stale and duplicated in-window deliveries are covered. -/
 theorem reply_contiguous_partial (req : Req) (h : Hist) (buffered pubs : List MPub) (off pos e : Nat)
     (hb : BrokerContig h) (hw : WindowOK req h buffered)
     (hs : subscribe req h buffered = .reply true pubs off pos e) :
@@ -163,7 +165,6 @@ theorem reply_contiguous_partial (req : Req) (h : Hist) (buffered pubs : List MP
       case isTrue hrec =>
       simp only [Outcome.reply.injEq, true_and] at hs
       obtain ⟨hpubs, hoff, hpos, _⟩ := hs
-      subst hpubs
       cases r with
       | none => simp at hrec
       | some l =>
@@ -198,25 +199,42 @@ theorem reply_contiguous_partial (req : Req) (h : Hist) (buffered pubs : List MP
       have hnp := merge_no_placeholder _ _ _ _ hm
       have hset := merge_set _ _ _ _ hm
       have hmax := merge_max_seen _ _ _ _ hm
+      -- the delivered list: merged minus stale buffered copies
+      have hmemP : ∀ p, p ∈ pubs ↔ p ∈ merged ∧ (buffered = [] ∨ req.offset < p.offset) := by
+        intro p
+        rw [← hpubs]
+        unfold dropStale
+        cases hbe : buffered with
+        | nil => simp
+        | cons b bs => simp [List.mem_filter]
+      have hsub : pubs.Sublist merged := by
+        rw [← hpubs]; unfold dropStale; split
+        · exact List.Sublist.refl _
+        · exact List.filter_sublist
       have hposeq : pos = max h.top maxSeen := by
         rw [← hpos]
-        exact latestOf_eq_max (fun p hp => hmax.1 p (hnp p hp).2)
-      -- every input offset is above req.offset and at most pos
-      have habove : ∀ p ∈ toMPubs 0 h.pubs ++ buffered, req.offset < p.offset := by
+        exact latestOf_eq_max (fun p hp => hmax.1 p (hnp p (hsub.subset (by rw [← hpubs]; exact hp))).2)
+      -- history entries are above req.offset
+      have habove_hist : ∀ p ∈ toMPubs 0 h.pubs, req.offset < p.offset := by
         intro p hp
-        rcases List.mem_append.mp hp with hp | hp
-        · obtain ⟨q, hq, h1, _⟩ := mem_toMPubs hp
-          have := (hhist q.offset).mp (List.mem_map_of_mem hq)
-          omega
-        · exact hw.noStale p hp
+        obtain ⟨q, hq, h1, _⟩ := mem_toMPubs hp
+        have := (hhist q.offset).mp (List.mem_map_of_mem hq)
+        omega
       have hle_max : ∀ p ∈ toMPubs 0 h.pubs ++ buffered, p.offset ≤ pos := by
         intro p hp
         have := hmax.1 p hp
         omega
-      refine ⟨hoff.symm, hsorted, ?_, ?_⟩
+      refine ⟨hoff.symm, hsorted.sublist hsub, ?_, ?_⟩
       · intro p hp
-        have := hnp p hp
-        exact ⟨this.1, habove p this.2, hle_max p this.2⟩
+        have hpm := (hmemP p).mp hp
+        have := hnp p hpm.1
+        refine ⟨this.1, ?_, hle_max p this.2⟩
+        rcases hpm.2 with hbe | hgt
+        · subst hbe
+          rcases List.mem_append.mp this.2 with h1 | h1
+          · exact habove_hist p h1
+          · cases h1
+        · exact hgt
       · intro o ho1 ho2
         -- o is an offset of some input entry
         have hin : ∃ p ∈ toMPubs 0 h.pubs ++ buffered, p.offset = o := by
@@ -244,12 +262,15 @@ theorem reply_contiguous_partial (req : Req) (h : Hist) (buffered pubs : List MP
           simp only [fOffsets, List.mem_map, List.mem_filter]
           exact ⟨p, ⟨hp, hf⟩, hpo⟩
         · left
-          apply (hset o).mpr
-          rw [mem_nfOffsets]
-          exact ⟨p, hp, by simpa using hf, hpo⟩
+          have hmo : o ∈ merged.map (·.offset) := by
+            apply (hset o).mpr
+            rw [mem_nfOffsets]
+            exact ⟨p, hp, by simpa using hf, hpo⟩
+          obtain ⟨q, hq, hqo⟩ := List.mem_map.mp hmo
+          exact List.mem_map.mpr ⟨q, (hmemP q).mpr ⟨hq, Or.inr (by omega)⟩, hqo⟩
 
 /-! ### Counter-witnesses: why the full statement fails for the current code
-(each is replayed on the real `subscribeCmd` by the check; see known findings C01-1, C01-2). -/
+(each is replayed on the real `subscribeCmd` by the check; see known findings C01-1a/b/c). -/
 
 /-- C01-1 (leading hole): client at 10, history top 10, an in-window delivery of offset 13 —
 the reply says recovered and carries only 13; 11 and 12 are silently skipped. -/
@@ -261,17 +282,18 @@ position jumps to 12 although 11 was never seen. -/
 example : subscribe ⟨true, false, 9, 1⟩ ⟨[⟨10, false⟩], 10, 1⟩ [⟨12, true, 1⟩] =
     .reply true [⟨10, false, 0⟩] 9 12 1 := by decide
 
-/-- C01-2 (stale in-window delivery): client already holds 10; the lagging PUB/SUB copy of 10
-lands inside the subscribe window and is delivered again in the reply. -/
+/-- C01-2, FIXED in the repository ("fix: recovery does not deliver again a publication the
+client already has"): the client holds 10; the lagging PUB/SUB copy of 10 that lands inside the
+subscribe window is no longer delivered again (before the fix the reply carried `[10]`). -/
 example : subscribe ⟨true, false, 10, 1⟩ ⟨[], 10, 1⟩ [⟨10, false, 0⟩] =
-    .reply true [⟨10, false, 0⟩] 10 10 1 := by decide
+    .reply true [] 10 10 1 := by decide
 
 /-- non-vacuity of `reply_contiguous_partial`: a recovered reply with overlap, a filtered
 history entry and in-window continuation satisfies the hypotheses. -/
 example : BrokerContig ⟨[⟨6, false⟩, ⟨7, true⟩, ⟨8, false⟩], 8, 1⟩ := ⟨6, by decide⟩
 example : WindowOK ⟨true, false, 5, 1⟩ ⟨[⟨6, false⟩, ⟨7, true⟩, ⟨8, false⟩], 8, 1⟩
     [⟨8, false, 3⟩, ⟨9, false, 4⟩] :=
-  ⟨by decide, by
+  ⟨by
     intro b hb o h1 h2
     simp only [List.mem_cons, List.not_mem_nil, or_false] at hb
     rcases hb with rfl | rfl <;> simp at h1 h2 ⊢ <;> omega⟩
